@@ -118,6 +118,46 @@ theorem modify_pending (s : State) (o : Nat) (ob ob' : Obj) (hob : s.objs[o]? = 
     · subst hp; simp [holt] at hpb; subst hpb; rw [hst]; exact hpend
     · simp [hp] at hpb; exact hinv.dirty p pb hpb hd
 
+/-- `obj.attr = value` -/
+theorem applyModify_spec (s s' : State) (o : Nat) (h : applyModify s o = .ok s') :
+    s'.trace = s.trace ∧ s'.saved = s.saved ∧ (∃ ext, s'.queue = s.queue ++ ext) ∧
+    (∀ o k, s.kindAt o = some k → s'.kindAt o = some k) ∧ (Inv s → Inv s') := by
+  simp only [applyModify] at h
+  cases hob : s.objs[o]? with
+  | none => simp [hob] at h
+  | some ob =>
+    have holt : o < s.objs.length := (List.getElem?_eq_some_iff.mp hob).1
+    have hkat : s.kindAt o = kindOf ob.status := by simp [State.kindAt, hob]
+    simp only [hob] at h
+    cases hst : ob.status with
+    | markedToDelete => simp [hst] at h
+    | deleted => simp [hst] at h
+    | created =>
+      simp [hst] at h; subst h
+      exact modify_pending s o ob _ hob (by simp [hst]) ⟨.insert, by simp [hst, kindOf]⟩
+    | modified =>
+      simp [hst] at h; subst h
+      exact modify_pending s o ob _ hob (by simp [hst]) ⟨.update, by simp [hst, kindOf]⟩
+    | loaded =>
+      simp [hst] at h; subst h
+      exact modify_clean s o ob hob (by simp [hst, kindOf])
+    | inserted =>
+      simp [hst] at h; subst h
+      exact modify_clean s o ob hob (by simp [hst, kindOf])
+    | updated =>
+      simp [hst] at h; subst h
+      exact modify_clean s o ob hob (by simp [hst, kindOf])
+
+
+/-- storing a reference changes nothing the queue invariant, the trace or the link bookkeeping look at -/
+theorem setRefs_frame (s : State) (o : Nat) (l : List Nat) :
+    (s.setRefs o l).trace = s.trace ∧ (s.setRefs o l).saved = s.saved ∧ (s.setRefs o l).queue = s.queue ∧
+    (s.setRefs o l).objs = s.objs ∧ (s.setRefs o l).modified = s.modified ∧ (s.setRefs o l).lk = s.lk := ⟨rfl, rfl, rfl, rfl, rfl, rfl⟩
+
+theorem setRefs_spec (s : State) (o : Nat) (l : List Nat) :
+    (∀ p, (s.setRefs o l).kindAt p = s.kindAt p) ∧ (Inv s → Inv (s.setRefs o l)) :=
+  ⟨fun _ => rfl, fun h => h.of_same rfl rfl rfl⟩
+
 /-- everything a hook operation can do -/
 theorem applyOp_spec (s s' : State) (op : HOp) (h : applyOp s op = .ok s') :
     s'.trace = s.trace ∧ s'.saved = s.saved ∧ (∃ ext, s'.queue = s.queue ++ ext) ∧
@@ -193,32 +233,26 @@ theorem applyOp_spec (s s' : State) (op : HOp) (h : applyOp s op = .ok s') :
     obtain ⟨t, v, q, o, m⟩ := applyLink_frame s s' a _ true h
     have hk : ∀ p, s'.kindAt p = s.kindAt p := by intro p; simp [State.kindAt, o]
     exact ⟨t, v, ⟨[], by simp [q]⟩, fun p k hp => by rw [hk]; exact hp, fun hi => hi.of_frame q o m⟩
-  | modify o =>
+  | modify o => exact applyModify_spec s s' o h
+  | refNewTo g =>
+    simp only [applyOp] at h; injection h with h; subst h
+    exact ⟨rfl, rfl, ⟨[], by simp [State.setRefs]⟩, fun p k hp => hp, fun hi => hi.of_same rfl rfl rfl⟩
+  | setRef i g =>
     simp only [applyOp] at h
-    cases hob : s.objs[o]? with
-    | none => simp [hob] at h
-    | some ob =>
-      have holt : o < s.objs.length := (List.getElem?_eq_some_iff.mp hob).1
-      have hkat : s.kindAt o = kindOf ob.status := by simp [State.kindAt, hob]
-      simp only [hob] at h
-      cases hst : ob.status with
-      | markedToDelete => simp [hst] at h
-      | deleted => simp [hst] at h
-      | created =>
-        simp [hst] at h; subst h
-        exact modify_pending s o ob _ hob (by simp [hst]) ⟨.insert, by simp [hst, kindOf]⟩
-      | modified =>
-        simp [hst] at h; subst h
-        exact modify_pending s o ob _ hob (by simp [hst]) ⟨.update, by simp [hst, kindOf]⟩
-      | loaded =>
-        simp [hst] at h; subst h
-        exact modify_clean s o ob hob (by simp [hst, kindOf])
-      | inserted =>
-        simp [hst] at h; subst h
-        exact modify_clean s o ob hob (by simp [hst, kindOf])
-      | updated =>
-        simp [hst] at h; subst h
-        exact modify_clean s o ob hob (by simp [hst, kindOf])
+    cases hm : applyModify s i with
+    | error e => simp [hm] at h
+    | ok s1 =>
+      simp only [hm] at h; injection h with h; subst h
+      obtain ⟨t, v, q, kk, ii⟩ := applyModify_spec s s1 i hm
+      exact ⟨t, v, q, kk, fun hi => (ii hi).of_same rfl rfl rfl⟩
+  | refToNew i =>
+    simp only [applyOp] at h
+    cases hm : applyModify s i with
+    | error e => simp [hm] at h
+    | ok s1 =>
+      simp only [hm] at h; injection h with h; subst h
+      obtain ⟨t, v, q, kk, ii⟩ := applyModify_spec s s1 i hm
+      exact ⟨t, v, q, kk, fun hi => (ii hi).of_same rfl rfl rfl⟩
 
 /-- a whole hook body -/
 theorem runOps_spec (ops : List HOp) : ∀ (s s' : State), runOps ops s = .ok s' →
@@ -516,6 +550,14 @@ def Err.isLimit : Err → Bool
   | .limit _ => true
   | _ => false
 
+theorem applyModify_no_limit (s : State) (o : Nat) (e : Err) (h : applyModify s o = .error e) : e.isLimit = false := by
+  simp only [applyModify] at h
+  cases hob : s.objs[o]? with
+  | none => simp [hob] at h; subst h; rfl
+  | some ob =>
+    simp only [hob] at h
+    cases hst : ob.status <;> simp [hst] at h <;> (subst h; rfl)
+
 theorem applyOp_no_limit (s : State) (op : HOp) (e : Err) (h : applyOp s op = .error e) : e.isLimit = false := by
   cases op with
   | read o => simp [applyOp] at h
@@ -537,13 +579,18 @@ theorem applyOp_no_limit (s : State) (op : HOp) (e : Err) (h : applyOp s op = .e
     simp only [applyOp, applyLink] at h
     repeat' split at h
     all_goals (cases h; try rfl)
-  | modify o =>
+  | modify o => exact applyModify_no_limit s o e h
+  | refNewTo g => simp [applyOp] at h
+  | setRef i g =>
     simp only [applyOp] at h
-    cases hob : s.objs[o]? with
-    | none => simp [hob] at h; subst h; rfl
-    | some ob =>
-      simp only [hob] at h
-      cases hst : ob.status <;> simp [hst] at h <;> (subst h; rfl)
+    cases hm : applyModify s i with
+    | error e1 => simp [hm] at h; subst h; exact applyModify_no_limit s i e1 hm
+    | ok s1 => simp [hm] at h
+  | refToNew i =>
+    simp only [applyOp] at h
+    cases hm : applyModify s i with
+    | error e1 => simp [hm] at h; subst h; exact applyModify_no_limit s i e1 hm
+    | ok s1 => simp [hm] at h
 
 theorem runOps_no_limit (ops : List HOp) : ∀ (s : State) (e : Err), runOps ops s = .error e → e.isLimit = false := by
   induction ops with
@@ -898,6 +945,11 @@ theorem applyLink_lk (s s' : State) (a b : Nat) (add : Bool) (h : applyLink s a 
               · exact h1.1
               · exact absurd h1 hpa
 
+theorem applyModify_lk (s s' : State) (o : Nat) (h : applyModify s o = .ok s') (hl : LK s) : LK s' := by
+  simp only [applyModify] at h
+  repeat' split at h
+  all_goals (cases h; try (first | exact hl.of_same rfl (fun _ => rfl) | exact hl.of_same rfl (fun hm => hm)))
+
 theorem applyOp_lk (s s' : State) (op : HOp) (h : applyOp s op = .ok s') (hl : LK s) : LK s' := by
   cases op with
   | read o => simp [applyOp] at h; subst h; exact hl
@@ -907,10 +959,18 @@ theorem applyOp_lk (s s' : State) (op : HOp) (h : applyOp s op = .ok s') (hl : L
   | unlink a b => exact applyLink_lk s s' a b false h hl
   | linkNewOwner b => exact applyLink_lk s s' _ b true h hl
   | linkNewItem a => exact applyLink_lk s s' a _ true h hl
-  | modify o =>
+  | modify o => exact applyModify_lk s s' o h hl
+  | refNewTo g => simp only [applyOp] at h; injection h with h; subst h; exact hl.of_same rfl (fun hm => hm)
+  | setRef i g =>
     simp only [applyOp] at h
-    repeat' split at h
-    all_goals (cases h; try (first | exact hl.of_same rfl (fun _ => rfl) | exact hl.of_same rfl (fun hm => hm)))
+    cases hm : applyModify s i with
+    | error e => simp [hm] at h
+    | ok s1 => simp only [hm] at h; injection h with h; subst h; exact (applyModify_lk s s1 i hm hl).of_same rfl (fun hm => hm)
+  | refToNew i =>
+    simp only [applyOp] at h
+    cases hm : applyModify s i with
+    | error e => simp [hm] at h
+    | ok s1 => simp only [hm] at h; injection h with h; subst h; exact (applyModify_lk s s1 i hm hl).of_same rfl (fun hm => hm)
 
 theorem runOps_lk (ops : List HOp) : ∀ (s s' : State), runOps ops s = .ok s' → LK s → LK s' := by
   induction ops with
@@ -1115,6 +1175,9 @@ theorem applyOpA_spec (nested : State → Except Err State) (hn : NestedSpec nes
   | unlink a b => exact plain _ (by simpa [applyOpA] using h)
   | linkNewOwner b => exact plain _ (by simpa [applyOpA] using h)
   | linkNewItem a => exact plain _ (by simpa [applyOpA] using h)
+  | setRef i g => exact plain _ (by simpa [applyOpA] using h)
+  | refNewTo g => exact plain _ (by simpa [applyOpA] using h)
+  | refToNew i => exact plain _ (by simpa [applyOpA] using h)
 
 theorem runOpsA_spec (nested : State → Except Err State) (hn : NestedSpec nested) (ops : List HOp) :
     ∀ (s s' : State), Inv s → s.saved = [] → runOpsA nested ops s = .ok s' →
